@@ -5,6 +5,8 @@ import (
 	"encoding/json"
 	"fmt"
 	"hash/fnv"
+	"io"
+	"log"
 	"os"
 	"testing"
 	"time"
@@ -86,6 +88,7 @@ func runSeed(base uint64, idx int) uint64 {
 }
 
 func TestWorker(t *testing.T) {
+	log.SetOutput(io.Discard)
 	specPath := os.Getenv("VSIM_SPEC")
 	if specPath == "" {
 		t.Skip("no VSIM_SPEC")
